@@ -187,7 +187,7 @@ def predicate(R, ctx):
     why = 'closure not found'
     if len(c) == 1:
         rows = FDI(f).run(c[0].path)
-        ok = len(rows) == 3
+        ok = len(rows) in (3, 4)
         for r in rows:
             sfx = r.get('variant(*arg1.0)')
             ext = r.get('variant(std::path::Path::extension(&path))')
@@ -197,6 +197,13 @@ def predicate(R, ctx):
                 ok = ok and isinstance(r.result, Const) and r.result.v is True
             elif ext == 'None':
                 ok = ok and isinstance(r.result, Const) and r.result.v is False
+            elif sfx == 'Some' and ext == 'Some' and isinstance(r.result, Const):
+                # the equality was decided by an ordering atom: which operands?
+                oa = [(a, v, r.atom_info.get(a, {})) for a, v in r.cond if r.atom_info.get(a, {}).get('kind') == 'ord']
+                good = len(oa) == 1 and 'Path::extension' in repr(oa[0][2]) and "'arg1'" in repr(oa[0][2]) and \
+                    not re.search(r'ends_with|starts_with|contains|file_name|file_stem', repr(oa[0][2])) and (r.result.v is (oa[0][1] == 'eq'))
+                if not good:
+                    ok, why = False, f"with a requested suffix and an extension present the closure decides {r.result!r} on {[a[:80] for a, v, i in oa]}; documented: extension == suffix"
             elif sfx == 'Some' and ext == 'Some':
                 x = getattr(r.result, 'x', None)
                 good = isinstance(x, tuple) and x[0] == 'call' and re.search(r'PartialEq<.*>.*::eq$', x[1]) and 'Path::extension' in repr(x[2]) and "'arg1'" in repr(x[2]) and \
